@@ -1090,6 +1090,8 @@ class StImpl:
         ss, sf = o.options["store_states"], o.options["store_final_state"]
         t = FakeTrajS({"seed": tr["id"], "times": 0, "coll": 0,
                        "e": [[0, 1]] * self.nt}, (1, self.nt), tr["mats"], bool(ss), bool(sf))
+        if "trace" in tr:           # NmmcResult: martingale weight per time
+            t.trace = [float(fr(v)) for v in tr["trace"]]
         return t
 
     def step(self, op):
@@ -1185,6 +1187,9 @@ def st_cvec(v):
 
 def st_ctraj(tr, ss, sf, nt):
     vec = st_mats_vec(tr["mats"])
+    if "trace" in tr:
+        # nm_scale of Model/C15_nm.v: the states of time j multiplied by trace[j]
+        vec = [Fr(x) * fr(tr["trace"][q // ST_D]) for q, x in enumerate(vec)]
     st = "(Some %s)" % st_cvec(vec) if ss else "None"
     fin = "(Some %s)" % st_cvec(vec[-ST_D:]) if (ss or sf) else "None"
     return "(mkst %s %s %s)" % (cz(tr["id"]), st, fin)
@@ -1271,12 +1276,17 @@ def st_gen_case(rng, big=False):
         nums.append(0)
         hast.append(False)
 
+    cls = rng.choice(["McResult", "MultiTrajResult", "NmmcResult"])
+
     def traj():
         st["id"] += 1
         mats = gen_mats(rng, nt, ket)
         mats = [[[315 * _z(x) if not isinstance(x, complex) else 315 * x for x in row] for row in m]
                 for m in mats] if not ket else mats
-        return {"id": st["id"], "mats": json.loads(json.dumps(mats, default=_cplx))}
+        t = {"id": st["id"], "mats": json.loads(json.dumps(mats, default=_cplx))}
+        if cls == "NmmcResult":
+            t["trace"] = [[rng.randint(-3, 6), 2 ** rng.randint(0, 2)] for _ in range(nt)]
+        return t
 
     for _ in range(rng.randint(1, 3)):
         new()
@@ -1308,7 +1318,422 @@ def st_gen_case(rng, big=False):
         elif len(nums) < 6:
             new()
     return {"nt": nt, "ss": ss, "sf": sf, "ops": ops, "keep_mode": keep_mode, "ket": ket,
-            "cls": rng.choice(["McResult", "MultiTrajResult"])}
+            "cls": cls}
+
+
+# ------------------------- NmmcResult: correspondence with Model/C15_nm.v
+NM_HEADER = ("From Coq Require Import List ZArith.\nImport ListNotations.\n"
+             "From QV Require Import Model.C15 Model.C15_st Model.C15_nm.\nOpen Scope Z_scope.\n")
+
+
+class FakeTrajN(FakeTraj):
+    def __init__(self, tr, shape):
+        FakeTraj.__init__(self, tr, shape)
+        self.trace = [float(fr(v)) for v in tr["trace"]]
+
+
+class NmImpl:
+    def __init__(self, case):
+        import qutip.solver.multitrajresult as M
+        self.M = M
+        self.case = case
+        self.shape = tuple(case["shape"])
+        self.e_ops = ["e%d" % k for k in range(self.shape[0])]
+        self.objs = []
+        self.outcomes = []
+        self.reads = []
+
+    def step(self, op):
+        k = op[0]
+        try:
+            if k == "new":
+                self.objs.append(self.M.NmmcResult(
+                    self.e_ops, {"store_states": False, "store_final_state": False,
+                                 "keep_runs_results": op[1]}, solver="fake",
+                    stats={"run time": 0.0, "num_collapse": 1}))
+                return 0
+            if k == "merge":
+                if not (0 <= op[1] < len(self.objs) and 0 <= op[2] < len(self.objs)):
+                    return 1
+                self.objs.append(self.objs[op[1]].merge(
+                    self.objs[op[2]], None if op[3] is None else float(fr(op[3]))))
+                return 0
+            if not (0 <= op[1] < len(self.objs)):
+                return 1
+            o = self.objs[op[1]]
+            if k == "add":
+                t = FakeTrajN(op[2], self.shape)
+                o.add((t.seed_id, t, float(fr(op[3]))))
+            elif k == "adddet":
+                o.add_deterministic(FakeTrajN(op[2], self.shape), float(fr(op[3])))
+            elif k == "rtrace":
+                self.reads.append((op[1], [float(x) for x in o.average_trace],
+                                   [float(x) for x in o.std_trace]))
+            return 0
+        except ValueError:
+            return 2
+        except ZeroDivisionError:
+            return 3
+        except (TypeError, AttributeError):
+            return 4
+
+    def snap(self, o):
+        def ns(s):
+            return None if s is None else (flat(s.sum_expect), flat(s.sum2_expect))
+        tr = None
+        if o._sum_trace_det is not None:
+            tr = tuple([float(x) for x in v] for v in (o._sum_trace_det, o._sum_trace_rel,
+                                                      o._sum2_trace_det, o._sum2_trace_rel))
+        cache = None
+        if o._average_trace is not None:
+            cache = ([float(x) for x in o._average_trace], [float(x) for x in o._std_trace])
+        c = copy.copy(o)
+        c._average_trace = None
+        c._std_trace = None
+        try:
+            c._compute_avg_trace()
+            fresh = ([float(x) for x in c._average_trace], [float(x) for x in c._std_trace])
+        except TypeError:
+            fresh = None
+        c2 = copy.copy(o)
+        c2._average_e_data = {}
+        c2._std_e_data = {}
+        try:
+            c2._create_e_data()
+            avg = flat([np.array(v) for v in c2._average_e_data.values()])
+            std = flat([np.array(v) for v in c2._std_e_data.values()])
+        except TypeError:
+            avg = std = None
+        return {"keep": bool(o.options["keep_runs_results"]), "num": int(o.num_trajectories),
+                "rel": ns(o._sum_rel), "det": ns(o._sum_det), "tr": tr,
+                "w_rel": [float(w) for w in o._trajectories_weight_info],
+                "w_det": [float(w) for w in o._deterministic_weight_info],
+                "runs_trace": [[float(x) for x in t] for t in o.runs_trace],
+                "cache": cache, "fresh_trace": fresh, "avg": avg, "std": std,
+                "ntrajs": len(o.trajectories), "ndet": len(o.deterministic_trajectories)}
+
+    def run(self):
+        for op in self.case["ops"]:
+            self.outcomes.append(self.step(op))
+        return {"outcomes": self.outcomes, "objs": [self.snap(o) for o in self.objs]}
+
+
+def nm_cops(case):
+    ne, nt = case["shape"]
+    out = []
+
+    def zl(v):
+        return clist(v, lambda x: "(%s, %s)" % (cz(x[0]), cz(x[1])))
+    for op in case["ops"]:
+        k = op[0]
+        if k == "new":
+            out.append("NNew %s" % cbool(op[1]))
+        elif k in ("add", "adddet"):
+            t = op[2]
+            tm = "(mknt %s %s %s %s)" % (cz(t["seed"]), zl(t["e"]), zl(t["trace"] * ne), zl(t["trace"]))
+            out.append("%s %s %s %s" % ("NAdd" if k == "add" else "NAddDet", cnat(op[1]), tm, cq(op[3])))
+        elif k == "merge":
+            out.append("NMerge %s %s %s" % (cnat(op[1]), cnat(op[2]),
+                                           "None" if op[3] is None else "(Some %s)" % cq(op[3])))
+        else:
+            out.append("NReadTrace %s" % cnat(op[1]))
+    return "nobserve %s" % clist(out)
+
+
+def nm_parse(val):
+    codes, objs = vlib.parse_coq_value(val)
+    out = []
+    for o in objs:
+        keep, num, sums, tr, ws, vals = o
+        rel, det = sums
+        w_rel, w_det, runs = ws
+        cache, fresh, avg, var = vals
+
+        def ns(x):
+            return mopt(x, lambda pr: (mvec(pr[0]), mvec(pr[1])))
+
+        def pr2(x):
+            return mopt(x, lambda pr: (mvec(pr[0]), mvec(pr[1])))
+        out.append({"keep": keep, "num": num, "rel": ns(rel), "det": ns(det),
+                    "tr": mopt(tr, lambda q: tuple(mvec(v) for v in q)),
+                    "w_rel": mvec(w_rel), "w_det": mvec(w_det),
+                    "runs_trace": [mvec(v) for v in runs],
+                    "cache": pr2(cache), "fresh_trace": pr2(fresh),
+                    "avg": mopt(avg, mvec), "var": mopt(var, mvec)})
+    return {"outcomes": list(codes), "objs": out}
+
+
+def var_eq(mv, sv, cstats):
+    """model variance vector against implementation std vector"""
+    if mv is None or sv is None:
+        return mv is None and sv is None
+    if len(mv) != len(sv):
+        return False
+    for v, s_ in zip(mv, sv):
+        cstats["approx"] = cstats.get("approx", 0) + 1
+        if abs(s_ * s_ - float(v)) > 1e-9 * max(1.0, abs(float(v))):
+            return False
+    return True
+
+
+def nm_compare(im, mo, cstats):
+    if im["outcomes"] != mo["outcomes"]:
+        return "outcomes", im["outcomes"], mo["outcomes"]
+    if len(im["objs"]) != len(mo["objs"]):
+        return "number of objects", len(im["objs"]), len(mo["objs"])
+    for k, (a, b) in enumerate(zip(im["objs"], mo["objs"])):
+        for f in ("keep", "num"):
+            if a[f] != b[f]:
+                return "obj%d.%s" % (k, f), a[f], b[f]
+        for f in ("w_rel", "w_det"):
+            if not vec_eq(b[f], a[f], True, cstats):
+                return "obj%d.%s" % (k, f), a[f], [str(x) for x in b[f]]
+        for f in ("rel", "det"):
+            if (a[f] is None) != (b[f] is None):
+                return "obj%d.%s" % (k, f), a[f], str(b[f])
+            if a[f] is not None:
+                for h in (0, 1):
+                    if not vec_eq(b[f][h], a[f][h], True, cstats):
+                        return "obj%d.%s[%d]" % (k, f, h), a[f][h], str(b[f][h])
+        if (a["tr"] is None) != (b["tr"] is None):
+            return "obj%d.trace sums" % k, a["tr"], str(b["tr"])
+        if a["tr"] is not None:
+            for h in range(4):
+                if not vec_eq(b["tr"][h], a["tr"][h], True, cstats):
+                    return "obj%d.trace sum %d" % (k, h), a["tr"][h], str(b["tr"][h])
+        if len(a["runs_trace"]) != len(b["runs_trace"]) or not all(
+                vec_eq(y, x, True, cstats) for x, y in zip(a["runs_trace"], b["runs_trace"])):
+            return "obj%d.runs_trace" % k, a["runs_trace"], str(b["runs_trace"])
+        for f in ("cache", "fresh_trace"):
+            if (a[f] is None) != (b[f] is None):
+                return "obj%d.%s" % (k, f), a[f], str(b[f])
+            if a[f] is not None:
+                if not vec_eq(b[f][0], a[f][0], True, cstats) or not var_eq(b[f][1], a[f][1], cstats):
+                    return "obj%d.%s" % (k, f), a[f], str(b[f])
+        if not vec_eq(b["avg"], a["avg"], True, cstats) or not var_eq(b["var"], a["std"], cstats):
+            return "obj%d.average/std expect" % k, [a["avg"], a["std"]], str([b["avg"], b["var"]])
+    return None
+
+
+def nm_gen_case(rng, big=False):
+    ne, nt = rng.choice([(1, 1), (1, 2), (2, 2), (2, 1), (1, 3)])
+    n = ne * nt
+    st = {"seed": 0}
+    keep_mode = rng.choice(["F", "T", "mixed"])
+    ops, nums, hast = [], [], []
+
+    def new():
+        ops.append(["new", {"F": False, "T": True, "mixed": rng.random() < 0.5}[keep_mode]])
+        nums.append(0)
+        hast.append(False)
+
+    def traj():
+        t = gen_traj(rng, st, n)
+        t["trace"] = [[rng.randint(-3, 6), 2 ** rng.randint(0, 2)] for _ in range(nt)]
+        return t
+
+    for _ in range(rng.randint(1, 3)):
+        new()
+    length = rng.randint(5, 30 if big else 18)
+    while len(ops) < length:
+        r = rng.random()
+        i = rng.randrange(len(nums))
+        if r < 0.45:
+            ops.append(["add", i, traj(), [1, 1] if rng.random() < 0.4 else gen_w(rng)])
+            nums[i] += 1
+            hast[i] = True
+        elif r < 0.6:
+            ops.append(["adddet", i, traj(), [rng.randint(1, 8), 16]])
+            hast[i] = True
+        elif r < 0.75:
+            ops.append(["rtrace", i])
+        elif r < 0.93:
+            j = rng.randrange(len(nums))
+            na, nb = nums[i], nums[j]
+            if hast[i] != hast[j] or na == 0 or nb == 0:
+                if rng.random() < 0.5:
+                    ops.append(["merge", i, j, None])
+                continue
+            if not dyadic(Fr(na, na + nb)):
+                continue
+            ops.append(["merge", i, j, gen_p(rng, na, nb, True)])
+            nums.append(na + nb)
+            hast.append(True)
+        elif len(nums) < 6:
+            new()
+    return {"shape": [ne, nt], "ops": ops, "keep_mode": keep_mode}
+
+
+def nm_oracle(case, I):
+    """NmmcResult against fractions: trace-weighted mean of the expectation
+    values and mean of the trace, with the weights the object reports."""
+    ne, nt = case["shape"]
+    n = ne * nt
+    found = []
+    ens = []
+    ok_idx = 0
+    for op, code in zip(case["ops"], I["outcomes"]):
+        k = op[0]
+        if k == "new":
+            ens.append(Ens())
+        elif k == "add" and code == 0:
+            ens[op[1]].rel.append((fr(op[3]), op[2]))
+        elif k == "adddet" and code == 0:
+            ens[op[1]].det.append((fr(op[3]), op[2]))
+        elif k == "merge" and code == 0:
+            Ea, Eb = ens[op[1]], ens[op[2]]
+            pe = Fr(Ea.n(), Ea.n() + Eb.n())
+            pp = pe if op[3] is None else fr(op[3])
+            E = Ens()
+            E.det = [(w * pp, t) for w, t in Ea.det] + [(w * (1 - pp), t) for w, t in Eb.det]
+            E.rel = ([(w * pp / pe, t) for w, t in Ea.rel]
+                     + [(w * (1 - pp) / (1 - pe), t) for w, t in Eb.rel])
+            ens.append(E)
+    if len(ens) != len(I["objs"]):
+        return [("NmmcResult.merge", "objects-diverge", "number of result objects differs from the history", {})]
+    for idx, (E, o) in enumerate(zip(ens, I["objs"])):
+        if E.empty():
+            continue
+        want = [E.mean(lambda t, k=k: fr(t["trace"][k % nt]) * fr(t["e"][k])) for k in range(n)]
+        if o["avg"] is None or not vec_eq(want, o["avg"], True):
+            found.append(("NmmcResult._reduce_expect", "trace-weighted-average",
+                          "average_expect != weighted mean of trace * value", {"obj": idx, "got": o["avg"],
+                                                                              "want": [str(x) for x in want]}))
+        wt = [E.mean(lambda t, k=k: fr(t["trace"][k])) for k in range(nt)]
+        if o["fresh_trace"] is None or not vec_eq(wt, o["fresh_trace"][0], True):
+            found.append(("NmmcResult._compute_avg_trace", "average-trace",
+                          "average_trace != weighted mean of the traces", {"obj": idx, "got": o["fresh_trace"],
+                                                                          "want": [str(x) for x in wt]}))
+        if o["cache"] is not None and not vec_eq(wt, o["cache"][0], True):
+            found.append(("NmmcResult.average_trace", "stale-trace-cache",
+                          "cached average_trace is not the current weighted mean", {"obj": idx}))
+        if o["keep"] and len(o["runs_trace"]) != o["ntrajs"]:
+            found.append(("NmmcResult._add_trace", "runs-trace-includes-deterministic",
+                          "len(runs_trace)=%d but len(trajectories)=%d (traces of deterministic "
+                          "trajectories are appended to runs_trace)" % (len(o["runs_trace"]), o["ntrajs"]),
+                          {"obj": idx}))
+    for r in found:
+        r[3]["nm_case"] = case
+        r[3]["kind"] = "nm"
+    return found
+
+
+# ------------------- _target_tolerance_end: correspondence with Model/C15_tt.v
+TT_HEADER = ("From Coq Require Import List ZArith.\nImport ListNotations.\n"
+             "From QV Require Import Model.C15 Model.C15_tt.\nOpen Scope Z_scope.\n")
+SITE_TT = "MultiTrajResult._target_tolerance_end"
+
+
+def tt_run(ctx, rng, ncases):
+    """Drives real results with a target tolerance; returns (records, found).
+    A record is the state before the call, the value `add` returned and the
+    end_condition it left."""
+    import qutip.solver.multitrajresult as M
+    recs, found = [], []
+    for c in range(ncases):
+        ne, nt = rng.choice([(1, 1), (1, 2), (2, 2), (2, 1)])
+        n = ne * nt
+        st = {"seed": 0}
+        target = rng.randint(1, 10)
+        tols = [[Fr(2) ** rng.randint(-3, 3), rng.choice([Fr(0), Fr(0), Fr(0), Fr(1, 4), Fr(1, 2)])]
+                for _ in range(ne)]
+        exact = all(r == 0 for _, r in tols)
+        o = M.MultiTrajResult(["e%d" % k for k in range(ne)],
+                              {"store_states": False, "store_final_state": False,
+                               "keep_runs_results": False}, solver="fake", stats={"run time": 0.0})
+        o.add_end_condition(target, target_tol=[(float(a), float(r)) for a, r in tols])
+        atol = [[t[0].numerator, t[0].denominator] for t in tols for _ in range(nt)]
+        rtol = [[t[1].numerator, t[1].denominator] for t in tols for _ in range(nt)]
+        E = Ens()
+        same = rng.random() < 0.25          # identical trajectories: zero spread
+        base = gen_traj(rng, st, n)
+        for step in range(rng.randint(1, target + 2)):
+            if rng.random() < 0.15 and not E.det:
+                t = gen_traj(rng, st, n)
+                w = [rng.randint(1, 8), 16]
+                o.add_deterministic(FakeTraj(t, (ne, nt)), float(fr(w)))
+                E.det.append((fr(w), t))
+                continue
+            t = dict(base, seed=st["seed"] + 1) if same else gen_traj(rng, st, n)
+            t["e"] = [[v[0] // 315 if v[0] % 315 == 0 else v[0], v[1]] for v in t["e"]]
+            o.stats["end_condition"] = "timeout"
+            ret = o.add((t["seed"], FakeTraj(t, (ne, nt))))
+            E.rel.append((Fr(1), t))
+            flag = {"timeout": 0, "ntraj reached": 1, "target tolerance reached": 2}.get(
+                o.stats["end_condition"], -1)
+            s1 = [Fr(x) for x in flat(o._sum_rel.sum_expect)]
+            s2 = [Fr(x) for x in flat(o._sum_rel.sum2_expect)]
+            wdet = [Fr(float(w_)) for w_ in o._deterministic_weight_info]
+            rec = {"target": target, "num": int(o.num_trajectories), "s1": s1, "s2": s2,
+                   "atol": atol, "rtol": rtol, "wdet": wdet, "ret": float(ret), "flag": flag,
+                   "exact": exact, "shape": [ne, nt]}
+            recs.append(rec)
+            ctx.count_case(("tt", c, step), nontrivial=rec["num"] >= 2)
+            # the property itself, from the trajectories added (fractions)
+            N = E.n()
+            if ret <= 0 and N < target:
+                if N <= 1:
+                    found.append((SITE_TT, "ends-with-one-trajectory",
+                                  "the end is signalled with %d trajectory" % N, {"rec_case": _ttj(rec)}))
+                else:
+                    one = 1 - sum((w_ for w_, _ in E.det), Fr(0)) if E.det else Fr(1)
+                    for k in range(n):
+                        m1 = sum((fr(t_["e"][k]) for _, t_ in E.rel), Fr(0)) / N
+                        m2 = sum((fr(t_["e"][k]) ** 2 for _, t_ in E.rel), Fr(0)) / N
+                        tol = tols[k // nt][0] + tols[k // nt][1] * m1
+                        if (m2 * one - m1 * m1) > (N - 1) * tol * tol * (1 + Fr(1, 10 ** 9)):
+                            found.append((SITE_TT, "tolerance-not-reached",
+                                          "end signalled but std/(N-1) > target**2 for component %d" % k,
+                                          {"rec_case": _ttj(rec)}))
+                            break
+            if N >= target and not (ret == 0 and flag == 1):
+                found.append((SITE_TT, "ntraj-not-respected",
+                              "ntraj reached but add returned %r / %r" % (ret, flag), {"rec_case": _ttj(rec)}))
+            if N < target and ret != math.inf and ret > target - N + 1e-9:
+                found.append((SITE_TT, "asks-more-than-ntraj",
+                              "estimate %r exceeds ntraj - N" % ret, {"rec_case": _ttj(rec)}))
+    return recs, found
+
+
+def _ttj(rec):
+    return {k: ([str(x) for x in v] if k in ("s1", "s2", "wdet") else v) for k, v in rec.items()}
+
+
+def tt_expr(rec):
+    def zl(v):
+        return clist(v, lambda x: "(%s, %s)" % (cz(Fr(x[0], x[1]).numerator if isinstance(x, list) else Fr(x).numerator),
+                                                cz(Fr(x[0], x[1]).denominator if isinstance(x, list) else Fr(x).denominator)))
+    return "tt_obs %s %s %s %s %s %s %s" % (cnat(rec["target"]), cnat(rec["num"]), zl(rec["s1"]),
+                                           zl(rec["s2"]), zl(rec["atol"]), zl(rec["rtol"]), zl(rec["wdet"]))
+
+
+def tt_zero_target(rec):
+    """atol + rtol * mean == 0 for some component: the code divides by zero
+    (inf / nan); outside the model"""
+    if rec["num"] < 2:
+        return False
+    for s1, a, r in zip(rec["s1"], rec["atol"], rec["rtol"]):
+        if Fr(a[0], a[1]) + Fr(r[0], r[1]) * Fr(s1) / rec["num"] == 0:
+            return True
+    return False
+
+
+def tt_compare(rec, val, cstats):
+    if tt_zero_target(rec) and rec["num"] < rec["target"]:
+        cstats["zero-target-skipped"] = cstats.get("zero-target-skipped", 0) + 1
+        return None
+    v = vlib.parse_coq_value(val)
+    inf, nd, flag = v[0], v[1], v[2]
+    near0 = (not rec["exact"]) and inf == 0 and abs(float(Fr(nd[0], nd[1]))) < 1e-9
+    if flag != rec["flag"] and not near0:      # rounding at the threshold: validation mode only
+        return "end_condition flag", rec["flag"], flag
+    if inf == 1:
+        return None if rec["ret"] == math.inf else ("value", rec["ret"], "inf")
+    if rec["ret"] == math.inf:
+        return "value", rec["ret"], str(Fr(nd[0], nd[1]))
+    if not num_eq(Fr(nd[0], nd[1]), rec["ret"], rec["exact"], cstats):
+        return "value", rec["ret"], str(Fr(nd[0], nd[1]))
+    return None
 
 
 # --------------------------------------------- _minimum_roundoff_ensemble
@@ -1429,8 +1854,13 @@ def run(ctx):
         "Model/C15.v is hand-written (flattened expectation vectors over Qc, world of result "
         "objects with a heap of stats dictionaries), mirroring the source after the repairs "
         "3ad4eea, ca7c500, b075e21, 191187a; tied to multitrajresult.py by the exact "
-        "state correspondence below; the square root of std_e_data, NmmcResult trace weighting "
-        "and target-tolerance end conditions are outside the model",
+        "state correspondence below; the square root of std_e_data is outside the model",
+        "Model/C15_nm.v (NmmcResult: trace-weighted expectation sums, the four trace sums, "
+        "average_trace / std_trace cache, runs_trace, merge) and Model/C15_tt.v "
+        "(_target_tolerance_end; a zero target atol + rtol*mean, where the code divides by zero, "
+        "is outside the model) are hand-written and tied by exact correspondence with the real "
+        "classes; trace-weighted states are the plain state model on trajectories scaled by "
+        "nm_scale (checked against the real NmmcResult)",
         "Model/C15_st.v: stored states / final states (processors, on-demand recomputation in "
         "average_states / average_final_state, merge with its reads of the operands), states "
         "flattened to one vector, _to_dm the identity (kets are projected by the harness); the "
@@ -1454,8 +1884,8 @@ def run(ctx):
                 ctx.violation(new[0][0], new[0][1], new[0][2], d)
                 return
 
-    vlib.standard_proof_step(ctx, ["Props/C15.vo", "Props/C15_st.vo"],
-                             ["Props/C15.v", "Props/C15_st.v"], search)
+    vlib.standard_proof_step(ctx, ["Props/C15.vo", "Props/C15_st.vo", "Props/C15_nm.vo", "Props/C15_tt.vo"],
+                             ["Props/C15.v", "Props/C15_st.v", "Props/C15_nm.v", "Props/C15_tt.v"], search)
 
     ctx.log("proof step done")
     # 1. the former counterexamples, as regression cases
@@ -1579,6 +2009,63 @@ def run(ctx):
     dist["states_corr"] = sdist
 
     ctx.log("states correspondence done")
+    # 4d. NmmcResult: exact correspondence with Model/C15_nm.v + fraction oracle
+    ncases_ = [nm_gen_case(rng, big=not ctx.quick) for _ in range(60 if ctx.quick else 1500)]
+    nimpls = [NmImpl(c).run() for c in ncases_]
+    try:
+        nvals = vlib.coq_eval_values("cases_C15_nm", NM_HEADER, [nm_cops(c) for c in ncases_], chunk=40)
+    except RuntimeError as e:
+        ctx.violation("corr:C15:nmmc-model-eval", "coqc", "NmmcResult model evaluation failed",
+                      {"log": str(e)}, found_input=False)
+        nvals = []
+    nmis = 0
+    for case, im, val in zip(ncases_, nimpls, nvals):
+        for site, sig, what, extra in nm_oracle(case, im):
+            ctx.violation(site, sig, what, extra)
+        diff = nm_compare(im, nm_parse(val), cstats)
+        ctx.cov["traces_validated_against_impl"] += 1
+        ctx.count_case(("nm", json.dumps(case, sort_keys=True)),
+                       nontrivial=any(op[0] in ("merge", "rtrace") for op in case["ops"]))
+        if diff is not None:
+            nmis += 1
+            if nmis <= 3:
+                ctx.violation("corr:NmmcResult", "model-differs:" + diff[0].split(".", 1)[-1],
+                              "NmmcResult model and implementation disagree on %s" % diff[0],
+                              {"nm_case": case, "field": diff[0], "impl": diff[1], "model": str(diff[2]),
+                               "kind": "nm"}, found_input=False)
+    dist["nmmc_corr"] = {"cases": len(ncases_),
+                         "merges_ok": sum(1 for c, im in zip(ncases_, nimpls)
+                                          for op, code in zip(c["ops"], im["outcomes"])
+                                          if op[0] == "merge" and code == 0)}
+    ctx.log("NmmcResult correspondence done")
+
+    # 4e. _target_tolerance_end: correspondence with Model/C15_tt.v + criterion oracle
+    trecs, tfound = tt_run(ctx, rng, 40 if ctx.quick else 800)
+    for site, sig, what, extra in tfound:
+        extra["kind"] = "tt"
+        ctx.violation(site, sig, what, extra)
+    try:
+        tvals = vlib.coq_eval_values("cases_C15_tt", TT_HEADER, [tt_expr(r) for r in trecs], chunk=150)
+    except RuntimeError as e:
+        ctx.violation("corr:C15:tolerance-model-eval", "coqc", "tolerance model evaluation failed",
+                      {"log": str(e)}, found_input=False)
+        tvals = []
+    tmis = 0
+    tdist = {}
+    for rec, val in zip(trecs, tvals):
+        key = "%d/%s" % (rec["flag"], "inf" if rec["ret"] == math.inf else ("<=0" if rec["ret"] <= 0 else ">0"))
+        tdist[key] = tdist.get(key, 0) + 1
+        diff = tt_compare(rec, val, cstats)
+        ctx.cov["traces_validated_against_impl"] += 1
+        if diff is not None:
+            tmis += 1
+            if tmis <= 3:
+                ctx.violation("corr:" + SITE_TT, "model-differs:" + diff[0],
+                              "tolerance model and implementation disagree on %s" % diff[0],
+                              {"rec_case": _ttj(rec), "impl": diff[1], "model": str(diff[2]), "kind": "tt"},
+                              found_input=False)
+    dist["tolerance_corr"] = tdist
+
     # 5. _minimum_roundoff_ensemble: model correspondence + specification oracle
     ecases = ens_cases(ctx, rng, 150 if ctx.quick else 5000)
     hdr = ("From Coq Require Import List ZArith.\nImport ListNotations.\n"
@@ -1625,7 +2112,11 @@ def run(ctx):
         "averages after generated histories (all option sets, mixed keep_runs_results, kets and "
         "density matrices), plus the independent read-add-read / merge oracle.  Commutativity and "
         "associativity for arbitrary p are proved on the model and checked on the implementation "
-        "with a 1e-10 tolerance (validation).  "
+        "with a 1e-10 tolerance (validation).  NmmcResult (Props/C15_nm.v) and "
+        "_target_tolerance_end (Props/C15_tt.v) are tied by exact comparison of all running sums, "
+        "caches, runs_trace, returned estimates and end_condition flags with the real classes, plus "
+        "fraction oracles (trace-weighted mean; tolerance criterion for every component when the end "
+        "is signalled).  "
         "_minimum_roundoff_ensemble: model (Model/C15_ens.v) compared exactly with the "
         "implementation on dyadic weight lists, plus the docstring constraints and "
         "get_state_and_weight (frequency * correction = weight) as oracle.")
@@ -1648,6 +2139,12 @@ def replay(ctx, payload):
             msg = ens_weights_oracle(d["weights"], d["ntraj_total"])
         if msg:
             ctx.violation(payload["site"], payload["signature"], msg, d)
+        return
+    if d.get("kind") == "nm" and "nm_case" in d:
+        for site, sig, what, extra in nm_oracle(d["nm_case"], NmImpl(d["nm_case"]).run()):
+            if site == payload["site"] and sig == payload["signature"]:
+                ctx.violation(site, sig, what, extra)
+                return
         return
     if d.get("kind") == "states":
         for site, sig, what, extra in states_scenario(d["scenario"]):
